@@ -214,6 +214,13 @@ UserSections(auto, dir, cmd, cli, V) ==
       s3 == ParseFiles(s2, FilesNamed(dir, cmd), V)
   IN AddLines(s3, cli)
 
+\* ConfigLinesAddedTwice: skoolkit adds the -c Config/... lines to its set of sections before it reads the extra files, and
+\* then adds all -c lines, those included, at the end: the [Config] section ends up with these lines twice (same dictionary)
+UserSectionsTwice(auto, dir, cmd, cli, V) ==
+  LET cfg == AddLines(ParseFiles(<<>>, auto, V), SelectSeq(cli, IsConfigSpec))
+      s3 == ParseFiles(ParseFiles(cfg, FilesNamed(dir, RefFileNames(cfg)), V), FilesNamed(dir, cmd), V)
+  IN AddLines(s3, cli)
+
 \* ---- configuration of the commands (commands.rst, "Configuration" of every command) ----------------
 \* "will read configuration from a file named skoolkit.ini ... Configuration parameters must appear in a [tool] section";
 \* "Configuration parameters may also be set on the command line by using the --ini option.  Parameter values set this
